@@ -112,6 +112,54 @@ def inline_aliases(doc, env=None):
     return rec(doc)
 
 
+def alias_grid(ctx):
+    """a fixed grid (no chance involved): an anchored EMPTY mapping / sequence reused at another declared
+    type, with and without a hook that fills in an attribute in place; an anchored mapping reused at the
+    same or another type under a hook that swaps two keys (not idempotent)"""
+    yaml, yatiml = L.setup()
+    rng = ctx.rng
+    S = G.S
+    P = lambda nm, t, **kw: dict(name=nm, type=t, **kw)   # noqa: E731
+
+    def plain(name, params, **kw):
+        return dict(name=name, bases=[], registered=True, kind='plain', params=params, all_params=params,
+                    extra=False, abstract=None, define_init=True, **kw)
+    out = []
+    for hook in (None, [('setmissing', 'v', 1)]):
+        for second in (('any',), CM.t_opt(('map', 'dict', ('str',), ('int',))), ('map', 'dict', ('str',), ('cls', 'Opts')),
+                       ('cls', 'Opts'), ('seq', 'list', ('int',))):
+            for first_is in ('o', 'd'):
+                opts = plain('Opts', [P('v', ('int',), default=0)])
+                if hook:
+                    opts['savorize'] = hook
+                holder = plain('Holder2', [P('o', ('cls', 'Opts')), P('d', second)])
+                a, b = ('o', 'd') if first_is == 'o' else ('d', 'o')
+                doc = ('m', [(S(a), ('&', 'y1', ('m', [], None))), (S(b), ('*', 'y1'))], None)
+                out.append(([opts, holder], ('cls', 'Holder2'), doc, ('alias-grid', 'empty', bool(hook), first_is)))
+    swap = [('rename', 'width', 'tmp_'), ('rename', 'height', 'width'), ('rename', 'tmp_', 'height')]
+    for second in (('cls', 'Size'), ('map', 'dict', ('str',), ('int',)), ('any',)):
+        for first_is in ('o', 'd'):
+            size = plain('Size', [P('width', ('int',)), P('height', ('int',))], savorize=swap)
+            holder = plain('Holder3', [P('o', ('cls', 'Size')), P('d', second)])
+            a, b = ('o', 'd') if first_is == 'o' else ('d', 'o')
+            target = ('m', [(S('width'), S('1')), (S('height'), S('2'))], None)
+            doc = ('m', [(S(a), ('&', 'y1', target)), (S(b), ('*', 'y1'))], None)
+            out.append(([size, holder], ('cls', 'Holder3'), doc, ('alias-grid', 'swap', first_is)))
+    size = plain('Size', [P('width', ('int',)), P('height', ('int',))], savorize=swap)
+    target = ('m', [(S('width'), S('1')), (S('height'), S('2'))], None)
+    out.append(([size], ('seq', 'list', ('cls', 'Size')), ('q', [('&', 'y1', target), ('*', 'y1'), ('*', 'y1')], None),
+                ('alias-grid', 'swap-list')))
+    for spec, t, doc, desc in out:
+        try:
+            c = L.build_case(rng, yaml, yatiml, spec, t, doc, ('alias-across-types',) + desc)
+            L.run_case(c, yaml)
+        except Exception as e:  # noqa
+            ctx.count('gen_error:' + type(e).__name__)
+            continue
+        ctx.count('alias_grid')
+        yield c
+
+
 def alias_across_types(ctx, n):
     """yield cases in which one scalar is anchored at a position of one declared type and used again,
     through an alias, at a position of another (a key reused as a value, a str attribute reused at a
@@ -119,6 +167,8 @@ def alias_across_types(ctx, n):
     yaml, yatiml = L.setup()
     rng = ctx.rng
     S = G.S
+    for c in alias_grid(ctx):
+        yield c
     for _ in range(n):
         enum_c = dict(name='Kind', bases=[], registered=True, kind='enum', members=['a', 'b', 'true'])
         strl = dict(name='Word', bases=[], registered=True, kind=rng.choice(['str', 'userstring', 'yatimlstring']))
